@@ -199,10 +199,14 @@ impl<T> Sender<T> {
 
 impl<T> Clone for Sender<T> {
   fn clone(&self) -> Self {
-    self.shared.increment_senders();
+    // a clone of a closed handle is closed too: it must not revive a disconnected channel
+    let closed = self.closed.load(Ordering::Relaxed);
+    if !closed {
+      self.shared.increment_senders();
+    }
     Sender {
       shared: Arc::clone(&self.shared),
-      closed: AtomicBool::new(false),
+      closed: AtomicBool::new(closed),
     }
   }
 }
